@@ -1,8 +1,13 @@
 #!/bin/bash
-# Build the framework from files on disk only (offline): harness tools, and warm the Go build cache (race runtime).
+# Build the framework from files on disk only (offline): harness tools, and the warm base Go build cache that every
+# check process clones (std with -race, x/sync, the generator's dependencies, the harness run-time).
 set -e
 . /verif/bin/env.sh
+# setup runs alone: this is the only place where the base cache may be dropped (checks never delete from it)
+if [ -d "$GOCACHE" ] && [ "$(du -sk "$GOCACHE" | cut -f1)" -gt 8000000 ]; then go clean -cache; fi
+rm -rf /tmp/verif-gocache-* 2>/dev/null || true
 cd /verif/harness && mkdir -p /verif/build && go build -o /verif/build/ ./cmd/...
 cd /repo && go build -o /dev/null ./cmd/kessoku
 go build -race -o /dev/null std 2>/dev/null || true
+VERIF_SHARED_GOCACHE=1 python3 /verif/lib/warm.py
 echo "setup ok: $(go version)"
